@@ -84,6 +84,12 @@ def main():
         i = args.index("--only")
         only = args[i + 1]
         del args[i:i + 2]
+    json_out = None
+    if "--json" in args:
+        i = args.index("--json")
+        json_out = args[i + 1]
+        del args[i:i + 2]
+    summary = {}
     ids = args or sorted(os.path.basename(p)[:-5] for p in glob.glob(os.path.join(VERIF, "mutants", "C*.json")))
     bad = 0
     for pid in ids:
@@ -100,6 +106,14 @@ def main():
             print("%-4s %-10s %-45s %s" % (pid, status, name, detail))
             if status in ("MISSED", "FALSEALARM", "WRONGRULE", "NOCOMPILE"):
                 bad += 1
+        summary[pid] = {"mutants": len(results),
+                        "caught": sum(1 for r in results if r[1] == "CAUGHT"),
+                        "silent_on_behaviour_preserving": sum(1 for r in results if r[1] == "SILENT-OK"),
+                        "skipped": sum(1 for r in results if r[1] == "SKIPPED"),
+                        "problems": [{"mutant": r[0], "status": r[1]} for r in results if r[1] in ("MISSED", "FALSEALARM", "WRONGRULE", "NOCOMPILE")],
+                        "samples": [{"mutant": r[0], "status": r[1], "first_report": r[2][:200]} for r in results[:4]]}
+    if json_out:
+        json.dump(summary, open(json_out, "w"), indent=1)
     print("mutants: %d problem(s)" % bad)
     sys.exit(1 if bad else 0)
 
